@@ -1,5 +1,5 @@
 (* C16 — no hidden reallocation: addresses are stable until capacity is exceeded. *)
-From Coq Require Import ZArith List Bool.
+From Coq Require Import ZArith List Bool Lia.
 From Cntgs Require Import Base Layout Mem Vector World Spec Rep StableThm Refine NtLedger Refine NtRefine LifeHist AddrStable EmplacePos.
 Import ListNotations.
 Local Open Scope Z_scope.
@@ -125,3 +125,19 @@ Theorem C16_emplace_position_no_allocation : forall L v i t,
   v_cap (fst (emplace_pos L v i t)) = v_cap v.
 Proof. exact emplace_pos_no_alloc. Qed.
 Print Assumptions C16_emplace_position_no_allocation.
+
+(* ... and every element in front of the position stays where it was *)
+Theorem C16_emplace_position_keeps_the_elements_in_front : forall L, wf_plist L = true -> has_varying L = false ->
+  forall v l offs, RepO L v l offs ->
+  forall i t k, (i <= length l)%nat -> Z.of_nat (length l) < v_cap v ->
+  tuple_ok L (fixed_counts L (v_fixed v)) 0 t -> (k < i)%nat ->
+  eaddr L (fst (emplace_pos L v (Z.of_nat i) t)) (Z.of_nat k) = eaddr L v (Z.of_nat k).
+Proof.
+  intros L Hwf Hv v l offs R i t k Hi Hcap Ht Hk.
+  destruct (emplace_pos_rep L Hwf Hv v l offs R i t Hi Hcap Ht) as ([offs' R'] & _ & _).
+  apply (common_prefix_same_addresses L v l offs _ (linsert i t l) offs' i k R R'); try lia.
+  - unfold linsert. rewrite firstn_app, firstn_firstn, Nat.min_id, firstn_length.
+    replace (i - Init.Nat.min i (length l))%nat with 0%nat by lia. cbn [firstn]. rewrite app_nil_r. reflexivity.
+  - rewrite linsert_length by exact Hi. lia.
+Qed.
+Print Assumptions C16_emplace_position_keeps_the_elements_in_front.
